@@ -3,10 +3,10 @@
 package main
 
 import (
-	"os"
-	"strings"
 	"fmt"
 	"math/rand/v2"
+	"os"
+	"strings"
 
 	metav1 "k8s.io/apimachinery/pkg/apis/meta/v1"
 	"k8s.io/apimachinery/pkg/apis/meta/v1/unstructured"
